@@ -1,6 +1,159 @@
-"""C07 rules (placeholder: fail-closed until the rules are implemented)."""
-from ..loader import AnalysisError
+"""C07 - prerequisites reach each scheduler intact (translation gwf -> command line), ids normalised at the source."""
+import ast
+
+from ..index import dotted, walk_no_nested, loc
+from ..reference import flags as REF
+from ..symeval import Obj, PureInterp, Raised, Unsupported, tok
+from .c02 import rule_id_lookup
+from .c10 import NAME, PROJ, make_target
+from .persist import _calls
+
+IDS = [tok("ID1"), tok("ID2"), tok("ID3")]
+OUT = {"sbatch": tok("OUT") + "\n", "qsub": tok("OUT") + "\n", "bsub": "Job <" + "4242" + "> is submitted to queue <normal>.\n"}
+
+
+def submit_argv(ctx, mod, cname, deps):
+    idx = ctx.index
+    ci = idx.cls(f"{mod}:{cname}")
+    fn = idx.method(ci, "submit_target")
+    calls = []
+
+    def fake_call(exe, *args, input=None):
+        calls.append((exe, list(args), input))
+        return OUT.get(exe, "")
+
+    hooks = {"gwf.backends.utils.call": fake_call, "builtins.open": lambda *a, **k: Obj("file"), "attr:write": lambda recv, *a: None}
+    interp = PureInterp(ctx, hooks=hooks)
+    self_obj = Obj("ops", working_dir=PROJ, log_mode="full", accounting_enabled=True, **{"__class__": ci})
+    ret = interp.call(fn, (make_target({}), list(deps)), {}, self_obj=self_obj)
+    return fn, calls, ret
 
 
 def run(ctx):
-    raise AnalysisError("rules for C07 not implemented yet")
+    idx = ctx.index
+    r1 = ctx.rule("R1", "the whole prerequisite list reaches the submit command in the scheduler's documented syntax; none when the list is empty", min_instances=9)
+    expect = {
+        "slurm": lambda a: [x for x in a if x.startswith("--dependency")] == ["--dependency=afterok:" + ":".join(IDS)],
+        "sge": lambda a: "-hold_jid" in a and a[a.index("-hold_jid") + 1: a.index("-hold_jid") + 2] == [",".join(IDS)] and a.count("-hold_jid") == 1,
+        "lsf": lambda a: "-w" in a and a[a.index("-w") + 1: a.index("-w") + 2] == [" && ".join(f"done({i})" for i in IDS)] and a.count("-w") == 1,
+    }
+    human = {"slurm": "--dependency=afterok:id1:id2:id3", "sge": "-hold_jid id1,id2,id3", "lsf": "-w 'done(id1) && done(id2) && done(id3)'"}
+    exes = {"slurm": "sbatch", "sge": "qsub", "lsf": "bsub"}
+    for name, mod, cname in (("slurm", "gwf.backends.slurm", "SlurmOps"), ("sge", "gwf.backends.sge", "SGEOps"), ("lsf", "gwf.backends.lsf", "LSFOps")):
+        con = f"src/{mod.replace('.', '/')}.py::{cname}.submit_target"
+        try:
+            fn, calls, ret = submit_argv(ctx, mod, cname, IDS)
+            fn0, calls0, _ret0 = submit_argv(ctx, mod, cname, [])
+        except (Raised, Unsupported) as exc:
+            r1.violation(con, f"the submit command line cannot be derived from the source ({exc})", f"src/{mod.replace('.', '/')}.py")
+            continue
+        sub = [c for c in calls if c[0] == exes[name]]
+        if len(sub) != 1:
+            r1.violation(con + "::submit", f"{len(sub)} `{exes[name]}` commands are issued for one target (exactly one expected)", fn.where)
+            continue
+        argv = sub[0][1]
+        r1.check(expect[name](argv), con + "::dependency-syntax", human[name],
+                 f"with prerequisites [id1, id2, id3] the command line is {[a.replace('⟦', '<').replace('⟧', '>') for a in argv]}; "
+                 f"the scheduler must be told `{human[name]}` (every id, in {name}'s syntax, 'ok'-style so a failed prerequisite blocks the job)", fn.where)
+        argv0 = [c for c in calls0 if c[0] == exes[name]][0][1]
+        dep_free = not any(("depend" in a or a in ("-hold_jid", "-w") or "done(" in a) for a in argv0)
+        r1.check(dep_free, con + "::no-deps", "no dependency flag without prerequisites", f"without prerequisites the command line still contains a dependency flag: {argv0}", fn.where)
+        script = sub[0][2]
+        r1.check(isinstance(script, str) and script.startswith("#!"), con + "::script-on-stdin", "the compiled script is fed to the submit command",
+                 "the submit command does not receive the compiled job script on stdin", fn.where)
+        # ids normalised at the source
+        if name == "lsf":
+            ok = ret == "4242"
+        else:
+            ok = ret == tok("OUT")
+        r1.check(ok, con + "::returned-id", "the id handed back is the scheduler's id, stripped",
+                 f"the job id handed back to gwf is {ret!r}: it keeps the raw output (trailing newline) or is not the scheduler's id, so later `-hold_jid`/afterok lists "
+                 "and queue lookups use a malformed id", fn.where)
+        extra = ["--parsable"] if name == "slurm" else ["-terse"] if name == "sge" else []
+        r1.check(all(e in argv for e in extra), con + "::machine-readable", f"{extra or 'regex on bsub output'}",
+                 f"`{exes[name]}` is not asked for machine-readable output ({extra}): the id cannot be parsed", fn.where)
+
+    r2 = ctx.rule("R2", "gwf translates every prerequisite target to the id tracked under its name and hands the list to the backend", min_instances=2)
+    rule_id_lookup(ctx, r2)
+    from .c08 import run as _unused  # noqa: F401  (shared helpers live in c08/persist)
+    from .persist import rule_close_writes, rule_exit_persists
+    rule_exit_persists(ctx, r2)
+    rule_close_writes(ctx, r2)
+    rule_tracked_dump(ctx, r2)
+
+    r3 = ctx.rule("R3", "local pool: the id list travels unchanged client -> wire -> scheduler -> task coroutine", min_instances=4)
+    lo = idx.func("gwf.backends.local:LocalOps.submit_target")
+    p = lo.positional_params()
+    ok = any(isinstance(c.func, ast.Attribute) and c.func.attr == "submit" and any(k.arg == "deps" and dotted(k.value) == p[2] for k in c.keywords) or
+             (isinstance(c.func, ast.Attribute) and c.func.attr == "submit" and len(c.args) > 1 and dotted(c.args[1]) == p[2]) for c in _calls(lo.node))
+    r3.check(ok, f"{lo.module.relpath}::{lo.qual}", "client.submit(target, deps=<all ids>)", "LocalOps.submit_target does not pass the whole id list to the client", lo.where)
+    cs = idx.func("gwf.backends.local:Client.submit")
+    dp = cs.positional_params()[2]
+    sent = None
+    for c in _calls(cs.node):
+        if isinstance(c.func, ast.Attribute) and c.func.attr == "send":
+            for k in c.keywords:
+                if k.arg == "deps":
+                    sent = ast.unparse(k.value)
+    r3.check(sent in (dp, f"{dp} or []", f"list({dp})", f"list({dp} or [])"), f"{cs.module.relpath}::{cs.qual}", f"send(..., deps={sent})",
+             f"the client sends deps={sent}, not the complete id list", cs.where)
+    enq = idx.func("gwf.backends.local:Scheduler.enqueue_task")
+    th = idx.func("gwf.backends.local:Scheduler.try_handle_task")
+    ok = False
+    for c in _calls(enq.node):
+        if isinstance(c.func, ast.Attribute) and c.func.attr == th.name:
+            want = th.positional_params()[1:]
+            got = [dotted(a) for a in c.args]
+            kw = {k.arg: dotted(k.value) for k in c.keywords}
+            ok = (got == want[: len(got)] and all(kw.get(k, k) == k for k in kw)) and (len(got) + len(kw) == len(want))
+    r3.check(ok, f"{enq.module.relpath}::{enq.qual}::binding", "enqueue_task passes each of its parameters to the same-named parameter of the task coroutine",
+             "enqueue_task binds its arguments to the wrong parameters of the task coroutine (e.g. deps and time_limit swapped)", enq.where)
+    hc = idx.func("gwf.backends.local:Server.handle_connection")
+    ok = any(isinstance(c.func, ast.Attribute) and c.func.attr == "enqueue_task" and any(
+        k.arg == "deps" and isinstance(k.value, ast.Call) and isinstance(k.value.func, ast.Attribute) and k.value.func.attr == "pop" and k.value.args
+        and isinstance(k.value.args[0], ast.Constant) and k.value.args[0].value == "deps" for k in c.keywords) for c in _calls(hc.node))
+    r3.check(ok, f"{hc.module.relpath}::{hc.qual}", "deps=message.pop('deps')", "the server does not hand the message's deps to the scheduler", hc.where)
+
+    r4 = ctx.rule("R4", "local pool honours the prerequisites: wait for all, start only if all completed (C11)", min_instances=2)
+    from .c11 import run as c11_run
+    sub = type(ctx)(ctx.prop, ctx.repo, ctx.index, ctx.ev, ctx.tier)
+    sub.resolver = ctx.resolver
+    sub.shared = ctx.shared
+    c11_run(sub)
+    for rr in sub.rules:
+        for inst in rr.instances:
+            if inst["verdict"] == "VIOLATION":
+                r4.violation(inst["construct"], inst["detail"], inst["where"])
+            elif inst["verdict"] == "ok":
+                r4.ok(inst["construct"], inst["detail"], inst["where"])
+
+
+def rule_tracked_dump(ctx, r):
+    """What TrackingBackend.close() saves is the in-memory id table (ids recorded by this invocation win)."""
+    idx = ctx.index
+    tb = idx.cls("gwf.backends.base:TrackingBackend")
+    close_m = idx.method(tb, "close")
+    dump_obj = None
+    for c in _calls(close_m.node):
+        if isinstance(c.func, (ast.Name, ast.Attribute)) and idx.canon(c.func, close_m.module) == "json.dump" and c.args:
+            dump_obj = c.args[0]
+    ok = False
+    why = "close() does not json.dump anything"
+    if dump_obj is not None:
+        t = ast.unparse(dump_obj)
+        if t in ("self._tracked_jobs", "dict(self._tracked_jobs)"):
+            ok = True
+        elif isinstance(dump_obj, ast.Name):
+            assigns = [n for n in walk_no_nested(close_m.node) if isinstance(n, ast.Assign) and any(isinstance(x, ast.Name) and x.id == dump_obj.id for x in n.targets)]
+            muts = [c for c in _calls(close_m.node) if isinstance(c.func, ast.Attribute) and dotted(c.func.value) == dump_obj.id
+                    and c.func.attr in ("update", "pop", "clear", "setdefault", "popitem")]
+            muts += [n for n in walk_no_nested(close_m.node) if isinstance(n, (ast.Assign, ast.Delete)) and any(
+                isinstance(x, ast.Subscript) and dotted(x.value) == dump_obj.id for x in (n.targets if hasattr(n, "targets") else []))]
+            if len(assigns) == 1 and ast.unparse(assigns[0].value) in ("self._tracked_jobs", "dict(self._tracked_jobs)", "self._tracked_jobs.copy()") and not muts:
+                ok = True
+            else:
+                why = (f"close() saves `{dump_obj.id}`, which is not (a plain copy of) the in-memory job table: an id recorded by this invocation can be replaced "
+                       "by a stale one, so dependents are later held on a finished job instead of the running one")
+        else:
+            why = f"close() saves `{t[:60]}` instead of the in-memory job table"
+    r.check(ok, f"{close_m.module.relpath}::{close_m.qual}::dump", "the in-memory job table is what is saved", why, close_m.where)
